@@ -3,14 +3,31 @@ package rollout
 // C02 — steps are gated (DESIGN.md §6 C02); C03 ordering obligations ride on the same harness.
 
 import (
+	"strconv"
+	"strings"
+
 	"github.com/openkruise/rollouts/api/v1beta1"
 	"github.com/openkruise/rollouts/pkg/util"
 	"github.com/openkruise/rollouts/pkg/verifrt"
 	"github.com/openkruise/rollouts/pkg/verifrt/symclient"
+	"k8s.io/apimachinery/pkg/util/intstr"
+	"k8s.io/client-go/tools/record"
 )
 
 // c02CheckStep asserts the one-step transition relation of runCanary (canary and blue-green share it).
-func c02CheckStep(prefix string, r *v1beta1.Rollout, pre, post *v1beta1.CommonStatus, steps []v1beta1.CanaryStep, calls *vCalls, br *vBRResult, err error, hasTraffic bool) {
+// c02StepPods: reference for the pods a step asks for on a workload of R pods (percentages round up).
+func c02StepPods(st v1beta1.CanaryStep, R int) int {
+	if st.Replicas == nil {
+		return 0
+	}
+	if st.Replicas.Type == intstr.Int {
+		return int(st.Replicas.IntVal)
+	}
+	p, _ := strconv.Atoi(strings.TrimSuffix(st.Replicas.StrVal, "%"))
+	return (p*R + 99) / 100
+}
+
+func c02CheckStep(prefix string, r *v1beta1.Rollout, pre, post *v1beta1.CommonStatus, steps []v1beta1.CanaryStep, calls *vCalls, br *vBRResult, err error, hasTraffic bool, allowLastFull bool, wlReplicas int) {
 	n := int32(len(steps))
 	if err != nil {
 		// Reconcile returns before persisting the status when a step function fails (checked by C06): the in-memory
@@ -46,6 +63,15 @@ func c02CheckStep(prefix string, r *v1beta1.Rollout, pre, post *v1beta1.CommonSt
 			// Init fell through Upgrade in the same reconcile: the upgrade gate below applies
 			verifrt.Assert(br.done && !br.failed && br.consistent && br.ready && br.currentBatch+1 >= pre.CurrentStepIndex, prefix+".upgradeDoneOnlyIfBatchReleaseReady")
 		}
+		// C04: a partition-style step that replaces every stable pod un-pins the stable Service first
+		if stepHasTraffic && allowLastFull && v1beta1.IsRealPartition(r) && c02StepPods(cur, wlReplicas) >= wlReplicas {
+			verifrt.Cover("all-stable-pods-replaced")
+			retry, failed, called := calls.last(stubRestoreStableService)
+			verifrt.Assert(called && !retry && !failed, "C04.stableServiceRestoredBeforeAllStablePodsReplaced")
+			if called && calls.count(stubRunBatchRelease) > 0 {
+				verifrt.Assert(calls.index(stubRestoreStableService) < calls.index(stubRunBatchRelease), "C04.restoreBeforeBatchRelease")
+			}
+		}
 		// C03: first step with traffic — the stable Service is pinned before any pod is upgraded
 		if stepHasTraffic && pre.CurrentStepIndex == 1 && !r.Spec.Strategy.DisableGenerateCanaryService() && hasTraffic {
 			retry, failed, called := calls.last(stubPatchStableService)
@@ -68,7 +94,7 @@ func c02CheckStep(prefix string, r *v1beta1.Rollout, pre, post *v1beta1.CommonSt
 	case v1beta1.CanaryStepStatePaused:
 		verifrt.Cover("pause-done")
 		verifrt.Assert(postS == v1beta1.CanaryStepStateReady, prefix+".paused.successor")
-		lastFull := pre.CurrentStepIndex == n && cur.Replicas != nil && cur.Replicas.StrVal == "100%"
+		lastFull := allowLastFull && pre.CurrentStepIndex == n && cur.Replicas != nil && cur.Replicas.StrVal == "100%"
 		verifrt.Assert(lastFull || cur.Pause.Duration != nil, prefix+".pauseNeedsApprovalOrDuration")
 	case v1beta1.CanaryStepStateReady:
 		if post.CurrentStepIndex == pre.CurrentStepIndex {
@@ -114,6 +140,72 @@ func c02Canary(state int) {
 	// the status cursor the controller itself maintains: nextStepIndex may be anything a user can patch in
 	err := m.runCanary(c)
 	post := c.NewStatus.CanaryStatus.CommonStatus
-	c02CheckStep("C02.canary", r, &pre, &post, r.Spec.Strategy.Canary.Steps, calls, br, err, r.Spec.Strategy.HasTrafficRoutings())
+	c02CheckStep("C02.canary", r, &pre, &post, r.Spec.Strategy.Canary.Steps, calls, br, err, r.Spec.Strategy.HasTrafficRoutings(), true, int(c.Workload.Replicas))
 	verifrt.Cover("done")
+}
+
+// Same relation for the blue-green release manager (no "last step covers 100%" shortcut: every pause needs a duration
+// or an approval).
+func VerifC02_BlueGreenRunCanary_Init()            { c02BlueGreen(0) }
+func VerifC02_BlueGreenRunCanary_Upgrade()         { c02BlueGreen(1) }
+func VerifC02_BlueGreenRunCanary_TrafficRouting()  { c02BlueGreen(2) }
+func VerifC02_BlueGreenRunCanary_MetricsAnalysis() { c02BlueGreen(3) }
+func VerifC02_BlueGreenRunCanary_Paused()          { c02BlueGreen(4) }
+func VerifC02_BlueGreenRunCanary_Ready()           { c02BlueGreen(5) }
+func VerifC02_BlueGreenRunCanary_Completed()       { c02BlueGreen(6) }
+func VerifC02_BlueGreenRunCanary_Unknown()         { c02BlueGreen(7) }
+
+func c02BlueGreen(state int) {
+	vState = state
+	n := verifrt.Concrete(verifrt.IntRange("nSteps", 1, verifrt.Bound("steps", 2, 3)))
+	cur := verifrt.Concrete(verifrt.IntRange("st.currentStepIndex", 1, n))
+	r := vBlueGreenRollout(n, cur)
+	verifrt.Assume(r.Status.BlueGreenStatus.NextStepIndex <= int32(n))
+	c := vContext(r)
+	cli := &symclient.Client{}
+	calls := &vCalls{}
+	br := &vBRResult{}
+	vStubAllTR(calls)
+	vStubRunBatchRelease(calls, br)
+	m := vBlueGreenManager(cli)
+	pre := r.Status.BlueGreenStatus.CommonStatus
+	err := m.runCanary(c)
+	post := c.NewStatus.BlueGreenStatus.CommonStatus
+	c02CheckStep("C02.bluegreen", r, &pre, &post, r.Spec.Strategy.BlueGreen.Steps, calls, br, err, r.Spec.Strategy.HasTrafficRoutings(), false, int(c.Workload.Replicas))
+	verifrt.Cover("done")
+}
+
+// VerifC02_PausedMakesNoProgress: while spec.strategy.paused is set (and the workload is not being rolled back
+// directly) a reconcile calls no collaborator, writes nothing and leaves the step cursor untouched.
+func VerifC02_PausedMakesNoProgress() {
+	n := verifrt.Concrete(verifrt.IntRange("nSteps", 1, 2))
+	cur := verifrt.Concrete(verifrt.IntRange("st.currentStepIndex", 1, n))
+	var r *v1beta1.Rollout
+	if verifrt.Bool("blueGreen") {
+		r = vBlueGreenRollout(n, cur)
+	} else {
+		r = vCanaryRollout(n, cur)
+	}
+	r.Spec.Strategy.Paused = true
+	c := vContext(r)
+	c.Workload.IsInRollback = verifrt.Bool("wl.inRollback")
+	if verifrt.Bool("wl.revisionChanged") {
+		c.Workload.CanaryRevision = "another-rev"
+	}
+	cli := &symclient.Client{}
+	calls := &vCalls{}
+	br := &vBRResult{}
+	vStubAllTR(calls)
+	vStubRunBatchRelease(calls, br)
+	rec := &RolloutReconciler{Client: cli, Recorder: record.NewFakeRecorder(10), canaryManager: vCanaryManager(cli), blueGreenManager: vBlueGreenManager(cli), trafficRoutingManager: vCanaryManager(cli).trafficRoutingManager}
+	pre := *r.Status.GetSubStatus()
+	rollingBack := isRollingBackDirectly(r, c.Workload)
+	err := rec.doProgressingInRolling(c)
+	post := *c.NewStatus.GetSubStatus()
+	if !rollingBack {
+		verifrt.Cover("paused")
+		verifrt.Assert(err == nil, "C02.paused.noerror")
+		verifrt.Assert(len(calls.names) == 0 && len(cli.Log) == 0, "C02.paused.noCollaboratorNoWrite")
+		verifrt.Assert(post.CurrentStepIndex == pre.CurrentStepIndex && post.CurrentStepState == pre.CurrentStepState && post.NextStepIndex == pre.NextStepIndex, "C02.paused.cursorUntouched")
+	}
 }
